@@ -1724,6 +1724,90 @@ def ediff_moving_part(run, r, runner, n):
         run.count("ediffm%d" % k, True)
 
 
+def session_part(run, r, runner, n):
+    """one session with more than the restraint under test: a second harmonic restraint r2 on the same variables, a rejected
+    configuration in the middle of the run, then r2 deleted by script.  The restraint r must follow its model as if alone;
+    r2 has its closed-form energy while it exists."""
+    cases = []
+    tries = 0
+    while len(cases) < n and tries < 40 * n:
+        tries += 1
+        c = gen_case(r, len(cases))
+        if c["kind"] == "walls" and any(v["per"] for v in c["vars"]):
+            continue
+        c["events"] = [(("B" if t == "R" else t), xs) for t, xs in c["events"]]      # one process: the second restraint is not in the model
+        ne = len(c["events"])
+        if ne < 4:
+            continue
+        c["jbad"], c["jdel"] = ne // 3, (2 * ne) // 3
+        sc = c.get("scale", 1.0)
+        c["c2"] = [V.dyadic(r, -3, 3, bits=2) * sc for _ in c["vars"]]
+        cases.append(c)
+    scn = []
+    for k, c in enumerate(cases):
+        L = scenario(c, k, runner.scratch)
+        e0 = L.index("EOF")
+        L = L[:e0] + ["harmonic {", "  name r2", "  colvars " + " ".join("v%d" % i for i in range(len(c["vars"]))), "  centers " + vec(c["c2"]), "  forceConstant 0.75", "}"] + L[e0:]
+        rd = [j for j, l in enumerate(L) if l == "rdump"]
+        pd = rd[c["jdel"]]
+        L = L[:pd + 1] + ["script cv bias r2 delete"] + L[pd + 1:]
+        pb = rd[c["jbad"]]
+        L = L[:pb + 1] + ["config EOF", "harmonic {", "  name bad", "  colvars v0", "  targetCenters 1.0", "}", "EOF"] + L[pb + 1:]
+        scn += L
+    mlines, ds = [], []
+    for c in cases:
+        ml, d = model_case(c, runner.wallsinit)
+        mlines.append(ml); ds.append(d)
+    rc, mout, e = V.run_lines(runner.model, mlines)
+    rc2, iout, e2 = V.run_lines(runner.unit, scn, cwd=runner.scratch, timeout=900)
+    # split the RD records by bias name
+    per = {}
+    cur = None
+    for l in iout:
+        if l.startswith("echo CASE"):
+            cur = int(l.split()[2]); per[cur] = {"r": [], "r2": [], "cfg": [], "end": False}
+        elif cur is not None and l.startswith("RD "):
+            per[cur].setdefault(l.split()[1], []).append(l)
+        elif cur is not None and l.startswith("TI "):
+            per[cur]["r"].append(l)
+        elif cur is not None and (l.startswith("CONFIG") or (l.startswith("STEP ") and "err=ok" not in l)):
+            per[cur]["cfg"].append(l)
+        elif cur is not None and l.startswith("echo END"):
+            per[cur]["end"] = True
+    for k, c in enumerate(cases):
+        run.dist("session:two-restraints+rejected-config+delete")
+        rp = {"kind": "scenario", "case": c}
+        p_ = per.get(k)
+        if not p_ or not p_["end"]:
+            run.violation("harness:incomplete", "session scenario %d did not complete (rc %d)" % (k, rc2), rp)
+            continue
+        cfg = [l for l in p_["cfg"] if l.startswith("CONFIG")]
+        if len(cfg) != 2 or "err=ok" not in cfg[0] or "err=ok" in cfg[1] or any(l.startswith("STEP") for l in p_["cfg"]):
+            run.mismatch("session", {"case": c}, p_["cfg"], "first configuration accepted, second one refused, no step error")
+            continue
+        steps = parse_impl(["echo CASE 0"] + p_["r"] + ["echo END 0"])[0]["steps"]
+        if len(steps) != len(c["events"]):
+            run.mismatch("session", {"case": c}, len(steps), len(c["events"]))
+            continue
+        n2 = len(p_["r2"])
+        if n2 != c["jdel"] + 1:
+            run.violation("session:deleted-restraint", "the second restraint was dumped %d times, it exists for the first %d events" % (n2, c["jdel"] + 1), rp)
+        for l, (typ, xs) in zip(p_["r2"], c["events"]):
+            d_ = parse_fields(l)
+            c2 = dict(c, kind="harmonic")
+            E2, _, _ = spec_terms(c2, ds[k], Fr(3, 4), c["c2"], xs)
+            if not close(float.fromhex(d_["E"]), float(E2)):
+                run.violation("session:second-restraint-energy", "second restraint (centres %r, k 0.75) at values %r: energy %r, closed form %r" % (c["c2"], xs, float.fromhex(d_["E"]), float(E2)), rp)
+                break
+        c2, isteps, ms, cut = cut_ambiguous(c, steps, parse_model_line(mout[k]) if k < len(mout) else [])
+        bad = compare(c2, ds[k], ms, isteps)
+        if bad:
+            run.mismatch("session", {"case": c, "model_case": mlines[k]}, bad, "the restraint alone")
+        for sig, text in oracle(c2, ds[k], isteps):
+            run.violation(sig, text + " (session with a second restraint, a rejected configuration after event %d and a deletion after event %d)" % (c["jbad"], c["jdel"]), rp)
+        run.count("session%d" % k, True)
+
+
 def tsf_part(run, runner):
     """timeStepFactor f > 1: the bias is updated every f steps.  Continuous schedules are evaluated at the updated steps
     (and are stale in between, by design); staged schedules test exact step numbers and miss them (recorded finding)."""
@@ -1979,6 +2063,7 @@ def check(run):
     ediff_moving_part(run, r, runner, 40 if quick else 1000)
     traj_part(run, r, runner, 30 if quick else 600)
     badconfig_part(run, runner)
+    session_part(run, r, runner, 30 if quick else 800)
     extl_part(run, r, runner, 30 if quick else 800)
     tsf_part(run, runner)
     ti_part(run, r, runner, 40 if quick else 1500)
